@@ -273,7 +273,8 @@ NOTES = dict(explanation="decoder step, wire form of every byte and the writer p
 MANIFEST = dict(
     category="proof",
     text="For every byte value: Telnet.dataReceived on one byte agrees with the RFC 854 decoder table in each of its six states "
-         "(new state, application bytes, command / negotiation events, ValueError exactly for an unknown command byte); the "
+         "(new state, application bytes, command / negotiation events, ValueError exactly for an unknown command byte), and the "
+         "parser state is already the final one whenever the application is called (it may feed more bytes from there); the "
          "wire form of every application byte other than CR (IAC doubled, LF as CR LF) delivered from the data state, whole or "
          "cut between its two bytes, hands exactly that byte to the application, returns to the data state and triggers no "
          "command; TelnetTransport.write of one byte puts exactly that wire form on the transport.  That these per-byte facts "
